@@ -72,6 +72,16 @@ def table : List Obj → List Info
   | [] => []
   | o :: older => objInfo (table older) older.length o :: table older
 
+/-- Executable well-formedness: every reference inside an object points to an older object
+    (`Lemmas/Reach.lean` proves `wfb P = true ↔ WF P`; the driver reports it for every program). -/
+def wfb : List Obj → Bool
+  | [] => true
+  | o :: older =>
+      o.deps.all (fun d => decide (d < older.length)) &&
+      o.subs.all (fun b => b.results.all (fun r => decide (r < older.length)) &&
+                           b.formals.all (fun f => decide (f < older.length))) &&
+      wfb older
+
 def getObj (P : List Obj) (id : Nat) : Option Obj :=
   if id < P.length then P[P.length - 1 - id]? else none
 
